@@ -756,7 +756,7 @@ def run_impl(chk, cases, shards=8):
 
 def run_model(chk, pairs, tag, per_file=400, workers=6):
     """Returns {index: mask} over `pairs`, or raises when a Coq file does not evaluate."""
-    idx = [i for i, (c, r) in enumerate(pairs) if coq_representable(r)]
+    idx = [i for i, (c, r) in enumerate(pairs) if coq_representable(r) and not c.get("floats")]
     files = [idx[i:i + per_file] for i in range(0, len(idx), per_file)]
     masks = {}
 
